@@ -12,10 +12,20 @@ AUTH = dict(
            dict(name="chain_k2", defs={"VF_K": 2, "VF_ISSUER": 0}),
            dict(name="chain_k3", tier="thorough", defs={"VF_K": 3, "VF_ISSUER": 0})],
 )
-HARNESSES = [AUTH]
+WALK = dict(
+    name="chain_walk", src="chain_walk.c", checks=[],
+    units=["core/src/corelib_strings.c", "matrixssl/hsNegotiateVersion.c"],
+    functions=["matrixValidateCertsExt", "checkPathLenConstraint", "memcmpct"],
+    sources=["matrixssl/matrixssl.c", "core/src/corelib_strings.c"],
+    assumptions=["chain_walk: psX509AuthenticateCert is a contract stub (arbitrary verdict per pair, logged; success marks the subject PASS) - its guarantees are decided by auth_cert; validateDateRange / psX509ValidateGeneralName are no-ops; expectedName is NULL (name matching is C05); certificates are fresh from parsing (authStatus PS_FALSE); pathLenConstraint in {-1 (absent), 0..3}; TBS digests of 4 bytes, pairwise distinct except in the *_same cases"],
+    unwind=14, unwindset={"memcmpct:/./": 6},
+    cases=[dict(name="k%d_a%d" % (k, a), defs={"VF_K": k, "VF_A": a}) for k in (1, 2, 3) for a in (1, 2)] +
+          [dict(name="k%d_a1_same" % k, defs={"VF_K": k, "VF_A": 1, "VF_SAME": 1}) for k in (2, 3)],
+)
+HARNESSES = [AUTH, WALK]
 PROPERTY = dict(level='model_checking',
-    claim='psX509AuthenticateCert leaves a certificate PS_CERT_AUTH_PASS only if the issuer is a CA, names chain, it is not revoked, its signature was verified with the issuer key over its own TBS digest (verify stub consulted with exactly these arguments and said yes), key ids agree, issuer may sign, inside validity - or subject and issuer are the same certificate; conversely a chain meeting the rules is accepted.',
+    claim='psX509AuthenticateCert leaves a certificate PS_CERT_AUTH_PASS only if the issuer is a CA, names chain, it is not revoked, its signature was verified with the issuer key over its own TBS digest (verify stub consulted with exactly these arguments and said yes), key ids agree, issuer may sign, inside validity - or subject and issuer are the same certificate; conversely a chain meeting the rules is accepted. matrixValidateCertsExt accepts a chain only if every link was authenticated under the next certificate and the top under the reported trust anchor (from a reset status), and no CA has more intermediates below it than its pathLenConstraint allows.',
     bounds='1 subject + issuer, chains of 1-2 (thorough 3) certificates; signatures <= 4 bytes, key ids <= 3 bytes',
-    outside='matrixValidateCertsExt chain walk / path length (C03.b), CRL lookup, parse-time checks, the signature mathematics (C11)',
+    outside='chains longer than 3 + anchor in the walk, CRL lookup, parse-time checks, the signature mathematics (C11)',
     explanation='psX509AuthenticateCert leaves a certificate PS_CERT_AUTH_PASS only if the issuer is a CA, names chain, it is not revoked, its signature was verified with the issuer key over its own TBS digest (verify stub consulted with exactly these arguments and said yes), key ids agree, issuer may sign, inside validity - or subject and issuer are the same certificate; conversely a chain meeting the rules is accepted.',
     assumptions=[])
